@@ -249,6 +249,18 @@ fn parse_and_validate_extended(
         let (tree_prop_context, tree_dom_context) =
             validate_and_divide_wild_cards(&tree, context_sets)?;
 
+        // the sets bound to wild-cards and domains must live in the symbolic context of the graph
+        // (a set computed for a different number of HCTL variables would make the evaluation panic)
+        let expected_vars = graph.symbolic_context().bdd_variable_set().num_vars();
+        for (label, set) in tree_prop_context.iter().chain(tree_dom_context.iter()) {
+            if set.as_bdd().num_vars() != expected_vars {
+                return Err(format!(
+                    "Context set `{label}` is not compatible with the graph: it has {} symbolic variables, the graph has {expected_vars}.",
+                    set.as_bdd().num_vars()
+                ));
+            }
+        }
+
         props_context.extend(tree_prop_context);
         domains_context.extend(tree_dom_context);
         parsed_trees.push(tree);
